@@ -8,9 +8,9 @@ import (
 	"encoding/json"
 	"fmt"
 	"io"
+	"runtime/debug"
 	"sort"
 	"strconv"
-	"runtime/debug"
 	"strings"
 	"sync"
 
@@ -37,7 +37,7 @@ type initFile struct {
 	name    string
 	layout  string
 	size    int
-	chunk   int // chunk size used by the importer for the initial file
+	chunk   int    // chunk size used by the importer for the initial file
 	leaf    string // pb | raw | ident
 	content []byte
 }
@@ -58,12 +58,12 @@ func addInit(name, layout string, size, chunk int, leaf string) {
 
 func init() {
 	addInit("empty-pb", "trickle", 0, 4, "pb")
-	addInit("raw6", "balanced", 6, 8, "raw")           // a single RawNode
-	addInit("inline6-pb", "balanced", 6, 8, "pb")      // a single dag-pb node with inline data (what `add` makes of a small file)
-	addInit("trickle10-pb", "trickle", 10, 4, "pb")    // leaves 4,4,2
-	addInit("trickle10-raw", "trickle", 10, 4, "raw")  // CIDv1, raw leaves
+	addInit("raw6", "balanced", 6, 8, "raw")              // a single RawNode
+	addInit("inline6-pb", "balanced", 6, 8, "pb")         // a single dag-pb node with inline data (what `add` makes of a small file)
+	addInit("trickle10-pb", "trickle", 10, 4, "pb")       // leaves 4,4,2
+	addInit("trickle10-raw", "trickle", 10, 4, "raw")     // CIDv1, raw leaves
 	addInit("trickle10-ident", "trickle", 10, 4, "ident") // identity-hash CIDs
-	addInit("balanced14-pb", "balanced", 14, 3, "pb")  // 5 leaves, 3 levels
+	addInit("balanced14-pb", "balanced", 14, 3, "pb")     // 5 leaves, 3 levels
 	addInit("trickle4k-raw", "trickle", 4096, 512, "raw")
 }
 
@@ -104,6 +104,9 @@ type sys struct {
 	cur      int64  // model cursor
 	curKnown bool   // false after WriteAt: the statement does not define the cursor then
 
+	maxDepth int // per-configuration depth bound
+	nops     int
+
 	lastFeat []string // features of the last executed operation (hidden-state hazard class)
 
 	// shadow bookkeeping of hidden state, used only to label violations
@@ -133,8 +136,8 @@ func (s *sys) track(kind string, pre, post mod.VerifC10State) {
 	}
 }
 
-func parseCfg(cfg string) (file string, links, wb, chunk int) {
-	chunk = 4
+func parseCfg(cfg string) (file string, links, wb, chunk, depth int) {
+	chunk, depth = 4, 3
 	for _, kv := range strings.Split(cfg, ",") {
 		p := strings.SplitN(kv, "=", 2)
 		switch p[0] {
@@ -146,6 +149,8 @@ func parseCfg(cfg string) (file string, links, wb, chunk int) {
 			wb, _ = strconv.Atoi(p[1])
 		case "chunk":
 			chunk, _ = strconv.Atoi(p[1])
+		case "d":
+			depth, _ = strconv.Atoi(p[1])
 		}
 	}
 	return
@@ -154,7 +159,7 @@ func parseCfg(cfg string) (file string, links, wb, chunk int) {
 var wbMu sync.Mutex
 
 func newSys(cfg string, thorough bool) eng.Sys {
-	fn, links, wb, chunk := parseCfg(cfg)
+	fn, links, wb, chunk, depth := parseCfg(cfg)
 	f := initFiles[fn]
 	if f == nil {
 		panic("unknown file in config " + cfg)
@@ -183,7 +188,7 @@ func newSys(cfg string, thorough bool) eng.Sys {
 		panic(fmt.Sprintf("NewDagModifier %s: %v", cfg, err))
 	}
 	dm.MaxLinks = links
-	return &sys{cfg: cfg, file: f, links: links, wb: wb, chunk: chunk, thorough: thorough, ds: ds, dm: dm,
+	return &sys{maxDepth: depth, cfg: cfg, file: f, links: links, wb: wb, chunk: chunk, thorough: thorough, ds: ds, dm: dm,
 		data: append([]byte{}, f.content...), cur: 0, curKnown: true}
 }
 
@@ -211,6 +216,9 @@ func nonneg(xs []int) []int {
 }
 
 func (s *sys) Ops() []string {
+	if s.nops >= s.maxDepth {
+		return nil
+	}
 	S := len(s.data)
 	c := s.chunk
 	ops := []string{"Sync"}
@@ -389,6 +397,7 @@ func errClass(err error) string {
 
 func (s *sys) Do(op string) (obs string, v *eng.Violation) {
 	f := strings.Fields(op)
+	s.nops++
 	pre := mod.VerifC10Snapshot(s.dm)
 	S := int64(len(s.data))
 	feat := []string{"hazard", "none"}
@@ -658,7 +667,7 @@ func (s *sys) Check() (v *eng.Violation) {
 	}
 	if _, isRaw := nd.(*mdag.RawNode); isRaw {
 		theRun.Add("states_root_is_rawnode", 1)
-	} else if s.file.leaf == "raw" && s.file.size < 100 && len(nd.Links()) > 0 {
+	} else if s.file.name == "raw6" {
 		theRun.Add("states_raw_root_converted_to_proto", 1)
 	}
 	// content through the modifier's own Read
@@ -706,27 +715,42 @@ func spec(r *eng.Run) eng.SeqSpec {
 	theRun = r
 	th := r.Thorough()
 	cfgs := []string{}
-	add := func(file string, links, wb int) {
-		cfgs = append(cfgs, fmt.Sprintf("file=%s,links=%d,wb=%d", file, links, wb))
+	depths := map[string]int{}
+	add := func(file string, links, wb, d int) {
+		c := fmt.Sprintf("file=%s,links=%d,wb=%d,d=%d", file, links, wb, d)
+		cfgs = append(cfgs, c)
+		depths[c] = d
 	}
+	maxd := 3
 	if !th {
-		add("empty-pb", 2, 0)
-		add("raw6", 2, 0)
-		add("trickle10-pb", 2, 0)
-		add("trickle10-raw", 2, 8)
-		add("inline6-pb", 2, 0)
-		add("trickle10-ident", 3, 0)
+		add("empty-pb", 2, 0, 3)
+		add("raw6", 2, 0, 3)
+		add("inline6-pb", 2, 0, 3)
+		add("trickle10-pb", 2, 0, 3)
+		add("trickle10-raw", 2, 8, 3)
+		add("trickle10-ident", 3, 0, 3)
+		add("balanced14-pb", 3, 8, 3)
+		add("trickle10-pb", 3, 8, 3)
 	} else {
 		for _, f := range []string{"empty-pb", "raw6", "inline6-pb", "trickle10-pb", "trickle10-raw", "trickle10-ident", "balanced14-pb"} {
 			for _, l := range []int{2, 3} {
 				for _, wb := range []int{0, 8} {
-					add(f, l, wb)
+					add(f, l, wb, 3)
 				}
 			}
 		}
-		cfgs = append(cfgs, "file=trickle4k-raw,links=8,wb=64,chunk=512")
+		c := "file=trickle4k-raw,links=8,wb=64,chunk=512,d=3"
+		cfgs = append(cfgs, c)
+		depths[c] = 3
+		// one level deeper on four configurations, last so that a budget cut hits these
+		add("empty-pb", 2, 0, 4)
+		add("trickle10-raw", 2, 8, 4)
+		add("raw6", 3, 0, 4)
+		add("trickle10-pb", 3, 0, 4)
+		maxd = 4
 	}
-	return eng.SeqSpec{Configs: cfgs, New: func(c string) eng.Sys { return newSys(c, th) }, Depth: eng.Pick(r, 3, 4)}
+	r.Set("depth_bound_per_config", depths)
+	return eng.SeqSpec{Configs: cfgs, New: func(c string) eng.Sys { return newSys(c, th) }, Depth: maxd}
 }
 
 func main() {
